@@ -1628,13 +1628,20 @@ func terminatorLostProbes(c *Ctx) {
 // handler passes such Anys on): whatever the body says, the HTTP status is an error status in
 // 400..599 - never 200 - for every code value, and a client sees a failure.
 func unserializableErrorProbe(c *Ctx) {
-	for _, code := range []connect.Code{connect.CodeNotFound, connect.CodeUnauthenticated, connect.CodeCanceled, connect.Code(17), connect.Code(4294967295), connect.Code(0)} {
+	for _, code := range []connect.Code{connect.CodeNotFound, connect.CodeUnauthenticated, connect.CodeCanceled, connect.Code(17), connect.Code(4294967295), connect.Code(0), connect.CodeAborted} {
 		desc := fmt.Sprintf("unary Connect handler returns code %d with a detail of a type unknown to this binary", uint32(code))
+		if code == connect.CodeAborted {
+			desc = "unary Connect handler returns aborted with a detail of the application's own type that cannot be encoded (a string field that is not UTF-8)"
+		}
 		c.Count("probe-unserializable-error")
 		got := safely(func() string {
 			h := connect.NewUnaryHandler("/s/m", func(ctx context.Context, r *connect.Request[[]byte]) (*connect.Response[[]byte], error) {
 				e := connect.NewError(code, errors.New("upstream says no"))
-				e.AddDetail(&anypb.Any{TypeUrl: "type.googleapis.com/acme.v9.NotLinkedIn", Value: []byte{8, 1}})
+				if code == connect.CodeAborted {
+					e.AddDetail(&countingDetail{&wrapperspb.StringValue{Value: "bad \xff bytes"}})
+				} else {
+					e.AddDetail(&anypb.Any{TypeUrl: "type.googleapis.com/acme.v9.NotLinkedIn", Value: []byte{8, 1}})
+				}
 				return nil, e
 			}, connect.WithCodec(rawCodec{"raw"}))
 			rec := serveReal("connect", "unary", false, h)
